@@ -162,11 +162,20 @@ Theorem C17_ctl_local : forall rx rules rqs1 rq rqs2,
 Proof. exact serve_local. Qed.
 Print Assumptions C17_ctl_local.
 
-(* Interrupt and skipAfter commute: keeping per-type action lists loses nothing *)
-Theorem C17_exec_commute : forall id stt d m s,
-  exec_disr id stt d (st_set_skip m s) = st_set_skip m (exec_disr id stt d s).
+(* Interrupt, skipAfter and skip commute: keeping per-type action lists loses nothing *)
+Theorem C17_exec_commute : forall id stt d f s,
+  exec_disr id stt d (exec_flow f s) = exec_flow f (exec_disr id stt d s).
 Proof. exact cf_exec_commute. Qed.
 Print Assumptions C17_exec_commute.
+
+(* skip:2 with a run-time removed rule (30) inside its window: 30 does not count, 40 and 50 are skipped -
+   as in the rule set without rule 30 (instance of C17_ctl_equiv_remove, whose engine counts tx.Skip after
+   the per-transaction removal check) *)
+Theorem C17_skip_window_instance :
+  exists c, cf_compile w_dflt wsk_src = Some c /\
+    map fst (fst (cf_outcome simple_rx c w_req)) = [10; 20; 60].
+Proof. exact skip_window_instance. Qed.
+Print Assumptions C17_skip_window_instance.
 
 (* ---- the code as it is violates the unguarded statements ---- *)
 Theorem C17_remove_id_zero_refuted :
